@@ -205,6 +205,12 @@ def weave_function(fn, path, src, edits, counter, census, loops=None, split_rmw=
     def wrap_access(e, depth, rmw_stmt=None):
         if is_local_lvalue(e, locals_):
             return
+        # a bit-field has no address: the interference point is put on the struct that holds it (the access is to that word)
+        while e.get('kind') == 'MemberExpr' and (e.get('objectKind') == 'bitfield' or e.get('name') in BITFIELD_NAMES) and e.get('inner'):
+            e = e['inner'][0]
+            while e.get('kind') == 'ParenExpr' and e.get('inner'):
+                e = e['inner'][0]
+            rmw_stmt = None
         if e.get('kind') == 'DeclRefExpr' and e.get('referencedDecl', {}).get('kind') in ('FunctionDecl', 'EnumConstantDecl'):
             return
         r = rng(e)
@@ -439,10 +445,28 @@ def clang_ast(repo_file, parse_file, fn, cflags):
     return parse_objs(p.stdout)
 
 
+BITFIELD_NAMES = set()
+
+
+def collect_bitfields(path):
+    """names of bit-field members declared in the file and in the repository headers next to it (clang 14's JSON dump does not mark a
+    MemberExpr that designates a bit-field, and the filtered dump has no FieldDecls)"""
+    import glob as _glob
+    root = os.path.dirname(os.path.dirname(os.path.abspath(path)))
+    for f in [path] + _glob.glob(os.path.join(root, 'include', '*.h')):
+        try:
+            txt = open(f).read()
+        except OSError:
+            continue
+        for m in re.finditer(r'\b([A-Za-z_]\w*)\s*:\s*\d+\s*;', txt):
+            BITFIELD_NAMES.add(m.group(1))
+
+
 def weave_file(path, fns, cflags, parse_file=None, first_site=0, loops=None, split_rmw=True, stub_calls=()):
     """returns (woven_text, census).  `path` is the file holding the function
     bodies; `parse_file` a .c file that includes it (for header inlines)."""
     src = open(path).read()
+    collect_bitfields(path)
     edits, census = [], {}
     counter = [first_site]
     res = LocResolver()
